@@ -50,6 +50,10 @@ ImportLines == {"import", "import ", "import\t", "import\tdep2", "import  dep2",
 ImportWhere == {"root", "imported"}
 ImportPlace == {"first", "second", "lastbytes"}
 
+\* a collector entry for a call and a call statement with the same endpoint name, the two target applications being
+\* the same, different, or one a leading part of the other (Bank, Bank :: Accounts, Bank :: Accounts :: Ledger)
+NestedApps == {"Bank", "Bank :: Accounts", "Bank :: Accounts :: Ledger", "Other"}
+
 Init == phase = 0
 Next ==
   \/ /\ phase = 0 /\ phase' = 1
@@ -70,5 +74,8 @@ Next ==
   \/ /\ phase = 5 /\ phase' = 6
      /\ \A ln \in ImportLines, w \in ImportWhere, pl \in ImportPlace :
           PrintT(<<"SCN", ToJson([kind |-> "importline", line |-> ln, where |-> w, place |-> pl])>>)
+  \/ /\ phase = 6 /\ phase' = 7
+     /\ \A e \in NestedApps, c \in NestedApps, own \in NestedApps :
+          PrintT(<<"SCN", ToJson([kind |-> "collectortarget", entry |-> e, call |-> c, owner |-> own])>>)
 Spec == Init /\ [][Next]_vars
 =============================================================================
